@@ -257,9 +257,57 @@ def layout_variants(tier, ev, fnd):
     ev.sample({'layout_variant': heads[9].replace('\t', '<TAB>')})
 
 
+def layout_modes(tier, ev, fnd):
+    """(third hunt) spellings of a sub-profile header the reference parser accepts and the builders may not see: another mode
+    flag (kill, unconfined, enforce: the modes exclude each other), `flags = (...)`, the bare `(...)` clause, text after the
+    brace, the brace on the next line, a flag listed twice. Oracle: the output compiles to the same policy (names, mode and
+    flag words, rules) as the text whose sub-profile header is rewritten by hand to the expected flags."""
+    import re
+    from .. import dfax
+    bins = gox.build(os.path.join(C.scratch(), 'gox'), ['applyx'])
+    MODES = {'complain', 'enforce', 'kill', 'unconfined'}
+    V = [('other-mode-flag', 'profile sub flags=(kill) {', ['kill']), ('other-mode-flag', 'profile sub flags=(unconfined) {', ['unconfined']),
+         ('other-mode-flag', 'profile sub flags=(enforce) {', ['enforce']), ('other-mode-flag', 'profile sub flags=(attach_disconnected,enforce) {', ['attach_disconnected', 'enforce']),
+         ('blanks-around-the-equal-sign', 'profile sub flags = (complain) {', ['complain']), ('blanks-around-the-equal-sign', 'profile sub flags = (attach_disconnected) {', ['attach_disconnected']),
+         ('bare-flags-clause', 'profile sub (complain) {', ['complain']), ('bare-flags-clause', 'profile sub (attach_disconnected) {', ['attach_disconnected']),
+         ('text-after-the-brace', 'profile sub { # helper', []), ('text-after-the-brace', 'profile sub flags=(complain) { # helper', ['complain']),
+         ('brace-on-the-next-line', 'profile sub flags=(complain)\n  {', ['complain']), ('brace-on-the-next-line', 'profile sub\n  {', []),
+         ('flag-listed-twice', 'profile sub flags=(complain,complain) {', ['complain']),
+         ('control', 'profile sub flags=(attach_disconnected) {', ['attach_disconnected'])]
+
+    def text(h):
+        return 'abi <abi/3.0>,\n\nprofile main /usr/bin/foo {\n  /usr/bin/foo mr,\n\n  %s\n    /bin/x r,\n  }\n}\n' % h
+
+    def policy(t):
+        b, err = dfax.compile_text(t, C.UPSTREAM)
+        if b is None:
+            return None, err
+        return [(p.name, p.fields, [C.sha(repr((d.accept, d.accept2))) for d in p.dfas]) for p in dfax.profiles(b)], ''
+    n = 0
+    for mode in ('complain', 'enforce'):
+        res = gox.jsonl(bins['applyx'], [{'op': 'builder:' + mode, 'text': text(h), 'file': 'main'} for _, h, _ in V], env={'DISTRIBUTION': 'arch'})
+        for (cause, h, fl_), r in zip(V, res):
+            n += 1
+            sig = 'layout-mode cause=%s mode=%s' % (cause, mode)
+            hh = h.replace('\n', '<NL>')
+            if policy(text(h))[0] is None:
+                raise SystemExit('HARNESS ERROR: the reference parser rejects the input header `%s`' % hh)
+            if r.get('panic') or r.get('err'):
+                fnd.report(sig, 'builder %s fails on sub-profile header `%s`: %s' % (mode, hh, r.get('panic') or r.get('err')), {'header': h}); continue
+            want = [f for f in fl_ if f not in MODES] + ['complain'] if mode == 'complain' else [f for f in fl_ if f != 'complain']
+            exp = text('profile sub %s{' % ('flags=(%s) ' % ','.join(want) if want else '')).replace('profile main /usr/bin/foo {', 'profile main /usr/bin/foo %s{' % ('flags=(complain) ' if mode == 'complain' else ''))
+            got, err = policy(r['out'])
+            if got is None:
+                fnd.report(sig, 'builder %s on sub-profile header `%s`: the reference parser rejects the output (%s): `%s`' % (mode, hh, err[:120], [l.strip() for l in r['out'].split('\n') if 'sub' in l][:2]), {'header': h, 'out': r['out']}); continue
+            if got != policy(exp)[0]:
+                fnd.report(sig, 'builder %s on sub-profile header `%s`: the output does not compile to the policy of the expected flags %s: `%s`' % (mode, hh, want, [l.strip() for l in r['out'].split('\n') if 'sub' in l][:2]), {'header': h, 'out': r['out']})
+    ev.add(transitions=n, layout_mode_headers=len(V))
+
+
 def run(tier):
     ev = C.Evidence(PROP, tier); fnd = C.Findings(PROP)
     generated(tier, ev, fnd)
+    layout_modes(tier, ev, fnd)
     layout_variants(tier, ev, fnd)
     real(tier, ev, fnd)
     ev.add(traces_validated_against_impl=ev.cov['real_blocks_compared'])
